@@ -10,6 +10,8 @@ import (
 	"io"
 	"log/slog"
 	"math"
+	"os"
+	"runtime/debug"
 	"sort"
 	"strconv"
 	"strings"
@@ -236,6 +238,9 @@ func qFmtCell(v any, mask bool) string {
 		if mask {
 			return "d:*"
 		}
+		if math.IsNaN(x) {
+			return "d:7ff8000000000001" // every NaN prints with the canonical bits, whatever its payload/sign
+		}
 		return fmt.Sprintf("d:%016x", math.Float64bits(x))
 	case string:
 		return "'" + x
@@ -359,6 +364,7 @@ var qRejectTable = [][2]string{
 	{"list is empty", "selectEmpty"},
 	{"cannot select fields: duplicate URN", "selectDup"},
 	{"cannot replace field, since it does not exist", "replaceMissing"},
+	{"cannot replace field ", "replaceDup"},
 	{"since it already exists in the result", "overrideConflict"},
 	{"condition filter requires a boolean field", "whereNonBool"},
 	{"condition filter requires a required", "whereOptional"},
@@ -1256,12 +1262,20 @@ func (b *qBuilder) dds(n *qsx) (datasource.DataSource, error) {
 
 const qExecTimeout = 5 * time.Second
 
+// qDebugPanic prints a recovered plan-time panic to stderr when VERIF_QDEBUG is set (diagnosis only).
+func qDebugPanic(r any) {
+	if os.Getenv("VERIF_QDEBUG") != "" {
+		fmt.Fprintf(os.Stderr, "planpanic: %v\n%s\n", r, debug.Stack())
+	}
+}
+
 func qInstant(n int64) time.Time { return time.Unix(0, n).UTC() }
 
 // qObsReport executes a report datasource and prints the canonical observation.
 func qObsReport(ds report.DataSource, b *qBuilder, mask bool, from, to int64) (obs string) {
 	defer func() {
 		if r := recover(); r != nil {
+			qDebugPanic(r)
 			obs = "planpanic"
 		}
 	}()
@@ -1298,6 +1312,7 @@ func qObsReport(ds report.DataSource, b *qBuilder, mask bool, from, to int64) (o
 func qObsDs(ds datasource.DataSource, b *qBuilder, mask bool, from, to int64) (obs string) {
 	defer func() {
 		if r := recover(); r != nil {
+			qDebugPanic(r)
 			obs = "planpanic"
 		}
 	}()
@@ -1334,6 +1349,7 @@ func qBuildErrObs(err error) (string, bool) {
 func execQueryX(kind, mode string, from, to int64, tree *qsx) (obs string, inputFail bool) {
 	defer func() {
 		if r := recover(); r != nil {
+			qDebugPanic(r)
 			obs, inputFail = "planpanic", false
 		}
 	}()
@@ -1492,6 +1508,7 @@ func qTwLifted(b *qBuilder, startUrn string, dfs []*qsx, single bool) ([]report.
 func execTwX(mode string, from, to int64, tree *qsx) (obs string, inputFail bool) {
 	defer func() {
 		if r := recover(); r != nil {
+			qDebugPanic(r)
 			obs, inputFail = "planpanic", false
 		}
 	}()
